@@ -40,6 +40,9 @@ CLAIMED = {
  'C07': ('other', 'identities between real sample()/value() expressions decided by z3 over all decision vectors; DM2numpy layout as a ground comparison',
          'Bounded symbolic checking of the read-back map. For every enumerated model/method/grid and test expression (scalar, column, row, matrix over x,u,z,t,T,t0,DT,DT_control,p,v of all grid kinds, quadrature state) and G in {control, control-, integrator, integrator+refine, integrator_roots}: sample(e,G)[i] == e applied to the sampled leaves at point i (homomorphism, all values, markers uninterpreted); sampled primitives equal the reference quantity of the enclosing interval/node incl. the scheme quadrature for quadrature states; value(e) == e(values); numeric array layout [time, row, col] (ground).',
          'As C01; layout checked on a tagged decision vector instead of solver output.', '3/C07'),
+ 'C08': ('other', 'interpolation identities on the real refined-sampling and sampler code decided by z3 (rational-function cross-multiplication; low() stubbed per explored step)',
+         'Bounded symbolic checking. For every enumerated method/scheme/grid (symbolic horizon) with refine = degree+2: sub-sampling identities between refined, integrator and control grids (times and values); refined times equally spaced; (d+1)-th finite difference of the in-step samples vanishes (one polynomial of degree <= d per step); extrapolated end value == the scheme\'s propagated end state (also the final entry); exact differentiation stencil at the step start == ODE right-hand side (explicit schemes); collocation polynomial through the helper states (rational tables); sampler on explored steps == that polynomial (values at d+1 times + vanishing (d+1)-th time derivative) - all for all real decision vectors/parameters with uninterpreted right-hand sides.',
+         'rockit.stage.low stubbed by the explored step index (path condition = t in that step). Numeric horizons and irrational collocation tables are outside the exact identities (rounded power-basis constants).', '3/C08'),
 }
 NA = {p: 'check not built yet in this round (see DESIGN.md section 3 for the plan)' for p in
       ['C02','C03','C04','C05','C06','C07','C08','C09','C10','C11','C12','C13','C14','C15','C16','C17','C18','C19']}
